@@ -124,6 +124,10 @@ private theorem evalBObj_upper (expF logF : ℚ → ℚ) (pb : Problem) (b : Boo
 theorem C12_bounds_table : ∀ w ∈ wrappers, w.objFixed = true ∧ w.objBoundsOk = true ∧
     (w.optLower = none → w.optimizer ≠ "scipy.optimize.brute" → w.objLower = some .lower ∧ w.objUpper = some .upper) := by decide
 
+/-- in the current source a wrapper negates `_object_func` exactly when it asks its optimiser to MAXIMISE: every optimiser
+    maximises the likelihood (`objectiveAtFull` is `-ll/ll_scale` for the minimisers and `ll` for `opt`) -/
+theorem C12_sign_table : ∀ w ∈ wrappers, w.negated = w.maximize := by decide
+
 /-- **never evaluated outside the bounds** — for every wrapper that hands the caller's bounds to `_object_func`, every
     optimiser behaviour, every fuel: each point at which the model function is called lies inside the caller's box -/
 theorem C12_no_oob_eval (w : Wrapper) (hlo : w.objLower = some .lower) (hup : w.objUpper = some .upper)
